@@ -66,12 +66,19 @@ std::string flipCase(std::string s) { for (auto& c : s) { if (c >= 'a' && c <= '
 std::string upper(std::string s) { for (auto& c : s) if (c >= 'a' && c <= 'z') c -= 32; return s; }
 std::string lower(std::string s) { for (auto& c : s) if (c >= 'A' && c <= 'Z') c += 32; return s; }
 
-// whole member through the stream interface: exactly Length() bytes, then nothing more
+// whole member through the stream interface: Length() bytes must arrive (asked for piecewise, so that a stream that
+// runs dry early is seen as such rather than as an error), then nothing more
 std::string drain(Stream::BidirectionalReader& s) {
   uint64_t len = s.Length();
   if (len > (uint64_t(1) << 31)) return "toolong";
   std::string buf(static_cast<std::size_t>(len), '\0');
-  s.Read(&buf[0], buf.size());
+  std::size_t total = 0;
+  while (total < buf.size()) {
+    std::size_t n = s.ReadPartial(&buf[total], buf.size() - total);
+    if (n == 0) break;
+    total += n;
+  }
+  if (total != buf.size()) return "short:" + std::to_string(total) + "/" + std::to_string(len);
   char extra[4]; std::size_t more = s.ReadPartial(extra, sizeof extra);
   if (more != 0) return "long+" + std::to_string(more);
   return showBytes(buf);
